@@ -154,6 +154,7 @@ type Exec struct {
 	lastUnknownWrites bool
 	curCall           *ast.CallExpr
 	boundsOnly        bool
+	pEvents           []string // substrings of emitted text the contract under verification counts (count("P:<substring>"))
 	keySorts          map[string]string // array sorts of heap keys seen by the write-set scans
 	havocWhy          []string // why the whole mutable heap was forgotten (diagnostics of frame[*])
 	frame             *frameInfo // what the contract under verification allows the body to change (nil: no frame checking)
